@@ -99,23 +99,29 @@ theorem refusals (ops : List Op) :
     (∀ d, r.generics.length ≥ 1792 → ∃ e, genericAdd r d = (r, .err e)) := by
   intro r
   have hinv : Inv r := inv_runOps ops
+  obtain ⟨hgf, hmf, hdi, hdm, _, _⟩ := table_facts
   refine ⟨?_, ?_, ?_, ?_, ?_, ?_⟩
   · intro n hn
-    have h1 : nameRefused TypeTab.minNameLenIface r (some n) = true := by simp [nameRefused, TypeTab.minNameLenIface, hn]
-    have h2 : nameRefused TypeTab.minNameLenMeta r (some n) = true := by simp [nameRefused, TypeTab.minNameLenMeta, hn]
+    have h1 : nameRefused TypeTab.minNameLenIface TypeTab.dupLookupIface (ownIface r) r (some n) = true := by
+      simp [nameRefused, TypeTab.minNameLenIface, hn]
+    have h2 : nameRefused TypeTab.minNameLenMeta TypeTab.dupLookupMeta (ownMeta r) r (some n) = true := by
+      simp [nameRefused, TypeTab.minNameLenMeta, hn]
     simp only [ifaceAdd, metaAdd, h1, h2, if_true]
     split <;> simp
   · intro e he n hn
     have hfound := (name_roundtrip hinv he hn).1
-    have h1 : nameRefused TypeTab.minNameLenIface r (some n) = true := by simp [nameRefused, hfound]
-    have h2 : nameRefused TypeTab.minNameLenMeta r (some n) = true := by simp [nameRefused, hfound]
+    have h1 : nameRefused TypeTab.minNameLenIface TypeTab.dupLookupIface (ownIface r) r (some n) = true := by
+      rw [hdi]; simp [nameRefused, dupFound, hfound]
+    have h2 : nameRefused TypeTab.minNameLenMeta TypeTab.dupLookupMeta (ownMeta r) r (some n) = true := by
+      rw [hdm]; simp [nameRefused, dupFound, hfound]
     simp only [ifaceAdd, metaAdd, h1, h2, if_true]
     split <;> simp
   · intro name h
     have : r.ifaces.length ≥ TypeTab.interfaceCap := h
     simp [ifaceAdd, this]
   · intro name h
-    have : TypeTab.metaBase + r.metas.length > TypeTab.metaMax := by
+    have : rangeRefused TypeTab.metaBase TypeTab.metaChunk r.metas.length TypeTab.metaLoopMax TypeTab.metaFinalMax = true := by
+      rw [hmf]; apply rangeRefused_over
       simp only [TypeTab.metaBase, TypeTab.metaMax]; omega
     simp only [metaAdd, this, if_true]
     split <;> simp
@@ -123,7 +129,8 @@ theorem refusals (ops : List Op) :
     have : ¬ r.dyn.length < TypeTab.dynamicCap := by simp only [TypeTab.dynamicCap]; omega
     simp [basicAdd, this]
   · intro d h
-    have : TypeTab.genericBase + r.generics.length > TypeTab.genericMax := by
+    have : rangeRefused TypeTab.genericBase TypeTab.genericChunk r.generics.length TypeTab.genericLoopMax TypeTab.genericFinalMax = true := by
+      rw [hgf]; apply rangeRefused_over
       simp only [TypeTab.genericBase, TypeTab.genericMax]; omega
     simp only [genericAdd, this, if_true]
     split
@@ -169,6 +176,6 @@ theorem msgfmt_consistent :
     (∀ x ∈ TypeTab.msgCodes, msgTypeid x.2 = .ok x.1 ∧
         some (msgSize x.2) = ((scalarCTypes.find? (·.1 = x.1)).bind fun y => abiSize y.2)) ∧
     (∀ fmt ∈ List.range 256, (match msgTypeid fmt with | .ok t => some t | _ => none) = specMsgType fmt) := by
-  decide
+  refine ⟨by decide, by decide, by decide +kernel⟩
 
 end Mpt.C06
